@@ -146,11 +146,7 @@ func c02(c *Ctx) {
 		paired := inc != nil && dec != nil && inc.Block() == dec.Block()
 		guarded := false
 		if paired {
-			for _, g := range an.Guards(inc) {
-				if bo, ok := g.Cond.(*ssa.BinOp); ok && bo.Op == token.GTR && g.Truth && bo.X == dec.X {
-					guarded = true
-				}
-			}
+			guarded = an.ImpliesPositive(an.Guards(inc), func(v ssa.Value) bool { return v == dec.X })
 		}
 		r.Check(paired && guarded, "PATH", fkey(f)+"/residual-paired", c.Pos(f.Pos()), "each distributed unit is taken from the residual", sprintf("the residual distribution is not unit-exact: +1 and -1 in the same block=%v, under residual>0=%v", paired, guarded))
 	}
